@@ -61,7 +61,9 @@ SetRows(feed, f, rows) == [feed EXCEPT ![f] = rows]
 DropCol(feed, f, col) == [feed EXCEPT ![f] = [i \in DOMAIN feed[f] |-> [x \in DOMAIN feed[f][i] \ {col} |-> feed[f][i][x]]]]
 NoBase == <<>>
 MkCase(feed, inherit, base, baseInherit, rel, pres) ==
-    [feed |-> feed, opts |-> [inherit |-> inherit], base |-> base, baseOpts |-> [inherit |-> baseInherit], relation |-> rel, pres |-> pres]
+    [feed |-> feed, opts |-> [inherit |-> inherit], base |-> base, baseOpts |-> [inherit |-> baseInherit], relation |-> rel, pres |-> pres, empty |-> <<>>]
+(* the same case with some members written as zero-byte files (not even a header) *)
+WithEmpty(c, files) == [c EXCEPT !.empty = files]
 
 (* ---------------- C01: one cell at a time, every column, well formed ---------------- *)
 Texts == {Id(k) : k \in 1..7}
@@ -89,8 +91,8 @@ Variations ==
     \cup {<<"transfers.txt", 1, "transfer_type", Num(d)>> : d \in 0..3}
     \cup {<<"transfers.txt", 1, "min_transfer_time", Num(d)>> : d \in {0, 1, 86400}}
     \cup {<<"calendar.txt", 1, Days[d], Num(b)>> : d \in 1..7, b \in {0, 1}}
-    \cup {<<"calendar.txt", 1, "start_date", D(k)>> : k \in 1..2} \cup {<<"calendar.txt", 1, "end_date", D(k)>> : k \in 6..8}
-    \cup {<<"calendar_dates.txt", 2, "date", D(k)>> : k \in 1..8} \cup {<<"calendar_dates.txt", 2, "exception_type", Num(d)>> : d \in {1, 2}}
+    \cup {<<"calendar.txt", 1, "start_date", D(k)>> : k \in 1..2} \cup {<<"calendar.txt", 1, "end_date", D(k)>> : k \in 6..10}
+    \cup {<<"calendar_dates.txt", 2, "date", D(k)>> : k \in 1..10} \cup {<<"calendar_dates.txt", 2, "exception_type", Num(d)>> : d \in {1, 2}}
     \cup {<<"shapes.txt", 1, c, v>> : c \in {"shape_pt_lat", "shape_pt_lon", "shape_dist_traveled"}, v \in Decs}
     \cup {<<"shapes.txt", 1, "shape_pt_sequence", Num(d)>> : d \in {0, 2, 3, 1000}}
     \cup {<<"trips.txt", 1, c, v>> : c \in {"trip_headsign", "trip_short_name"}, v \in Texts}
@@ -142,6 +144,12 @@ PoolC08(z) ==
     \cup {MkCase(SetRows(BaseFeed, "shapes.txt", Permute(C08Shapes, p)), FALSE, <<SetRows(BaseFeed, "shapes.txt", C08Shapes)>>, FALSE, "C08.permutation", 0)
         : p \in Perms(6)}
 
+C08Shape5 == <<ShapePt(3, 1, 1, 1), ShapePt(3, 2, 2, 2), ShapePt(3, 3, 3, 3), ShapePt(3, 4, 4, 4), ShapePt(3, 5, 5, 5)>>
+PoolC08shape5(z) ==
+    {MkCase(SetRows(BaseFeed, "shapes.txt", Permute(C08Shape5, p)), FALSE, <<SetRows(BaseFeed, "shapes.txt", C08Shape5)>>, FALSE, "C08.permutation", 0) : p \in Perms(5)}
+    \cup (* a trip of 4 stop times in every order *)
+    {MkCase(SetRows(BaseFeed, "stop_times.txt", Permute(st4, p)), FALSE, <<SetRows(BaseFeed, "stop_times.txt", st4)>>, FALSE, "C08.permutation", 0)
+        : p \in Perms(4), st4 \in {<<StopTime(1, 4, 1, T(8, 0, 0), T(8, 0, 0)), StopTime(1, 5, 2, T(8, 1, 0), T(8, 1, 0)), StopTime(1, 1, 3, T(8, 2, 0), T(8, 2, 0)), StopTime(1, 3, 4, T(8, 3, 0), T(8, 3, 0))>>}}
 PoolC08files(z) ==
     UNION {{MkCase(SetRows(BaseFeed, f, Permute(BaseFeed[f], p)), FALSE, NoBase, FALSE, "", 0) : p \in Perms(Len(BaseFeed[f]))}
              : f \in {"agency.txt", "routes.txt", "stops.txt", "transfers.txt", "trips.txt", "frequencies.txt", "calendar_dates.txt", "calendar.txt"}}
@@ -171,6 +179,9 @@ BadRows(f) ==
 PoolC09(z) ==
     UNION {{MkCase(SetRows(BaseFeed, f, InsRow(BaseFeed[f], k, b)), FALSE, <<BaseFeed>>, FALSE, "C09.inert", 0)
               : k \in 0..2, b \in BadRows(f)} : f \in Range(Files)}
+PoolC09multiline(z) ==
+    {MkCase(SetRows(BaseFeed, "agency.txt", InsRow(<<Agency(1, 3, 1), Agency(2, 2, 3)>>, k, b)), FALSE, <<SetRows(BaseFeed, "agency.txt", <<Agency(1, 3, 1), Agency(2, 2, 3)>>)>>, FALSE, "C09.inert", 2)
+        : k \in 0..2, b \in BadRows("agency.txt") \cup {Agency(3, 3, 1) ++ [agency_url |-> Blank]}}
 PoolC09pairs(z) ==
     UNION {{MkCase(SetRows(BaseFeed, f, InsRow(InsRow(BaseFeed[f], k, b), k2, b2)), FALSE, <<BaseFeed>>, FALSE, "C09.inert", 0)
               : k \in {0, 1}, k2 \in {1, 3}, b \in BadRows(f), b2 \in BadRows(f)} : f \in Range(Files)}
@@ -252,9 +263,12 @@ PoolStructure(z) ==
     \cup {MkCase(WithoutFile(WithoutFile(WithoutFile(WithoutFile(WithoutFile(BaseFeed, "transfers.txt"), "calendar.txt"), "calendar_dates.txt"), "shapes.txt"), "frequencies.txt"),
                   FALSE, NoBase, FALSE, "", 1)}
     \cup {MkCase(SetRows(BaseFeed, f, <<>>), FALSE, NoBase, FALSE, "", 1) : f \in Range(Files)}
+    \cup {WithEmpty(MkCase(BaseFeed, FALSE, NoBase, FALSE, "", 0), <<f>>) : f \in Range(Files)}
+    \cup {WithEmpty(MkCase(WithoutFile(BaseFeed, "calendar.txt"), FALSE, NoBase, FALSE, "", 0), <<"calendar_dates.txt">>),
+          WithEmpty(MkCase(BaseFeed, FALSE, NoBase, FALSE, "", 0), <<"transfers.txt", "shapes.txt">>)}
 
-Cases == CASE Pool = "C01" -> PoolC01(0) [] Pool = "C03stops" -> PoolC03stops(0) [] Pool = "C03refs" -> PoolC03refs(0) [] Pool = "C08" -> PoolC08(0) [] Pool = "C08files" -> PoolC08files(0)
-           [] Pool = "C09" -> PoolC09(0) [] Pool = "C09pairs" -> PoolC09pairs(0) [] Pool = "C10" -> PoolC10(0) [] Pool = "C11" -> PoolC11(0) [] Pool = "C11q" -> PoolC11(1) [] Pool = "C11b" -> PoolC11b(0) [] Pool = "C05cyc" -> PoolC05cyc(0) [] Pool = "structure" -> PoolStructure(0) [] Pool = "C05" -> PoolC05(Garbage) [] Pool = "C05q" -> PoolC05(GarbageQuick)
+Cases == CASE Pool = "C01" -> PoolC01(0) [] Pool = "C03stops" -> PoolC03stops(0) [] Pool = "C03refs" -> PoolC03refs(0) [] Pool = "C08" -> PoolC08(0) [] Pool = "C08files" -> PoolC08files(0) [] Pool = "C08shape5" -> PoolC08shape5(0)
+           [] Pool = "C09" -> PoolC09(0) \cup PoolC09multiline(0) [] Pool = "C09pairs" -> PoolC09pairs(0) [] Pool = "C10" -> PoolC10(0) [] Pool = "C11" -> PoolC11(0) [] Pool = "C11q" -> PoolC11(1) [] Pool = "C11b" -> PoolC11b(0) [] Pool = "C05cyc" -> PoolC05cyc(0) [] Pool = "structure" -> PoolStructure(0) [] Pool = "C05" -> PoolC05(Garbage) [] Pool = "C05q" -> PoolC05(GarbageQuick)
 
 (* ---------------- the machine ---------------- *)
 Init == /\ case \in Cases /\ fi = 1 /\ ri = 1 /\ st = EmptySt /\ pc = "rows"
@@ -277,6 +291,7 @@ Next == SkipFile \/ RowAct \/ EndAct \/ Finish
 Spec == Init /\ [][Next]_vars
 
 BaseResult == Result(ParseFeed(case.base[1], case.baseOpts.inherit))
+CaseOutcome == IF case.empty # <<>> THEN "error" ELSE Outcome(case.feed)      \* "CSV file contains no rows"
 Inv == pc = "done" =>
     LET r == Result(st) feed == case.feed IN
     /\ r = Result(ParseFeed(feed, case.opts.inherit))
